@@ -11602,7 +11602,9 @@ class TensorDictBase(MutableMapping):
             if has_names and value.names[: self.batch_dims] != self.names:
                 # we clone not to corrupt the value
                 value = value.clone(False).refine_names(*self.names)
-            elif not has_names and value._has_names():
+            elif not has_names and value._has_names() and not self.is_locked:
+                # (a locked tensordict does not adopt names: the write that follows is either refused,
+                # and must leave the tensordict as it was, or in place)
                 self.names = value.names[: self.batch_dims]
         return value
 
